@@ -15,6 +15,10 @@ type Base struct {
 	cond string
 	a, b *Base
 	top  string // allocation top at the time of the havoc (kind 0/1)
+	// state just before the havoc (kind 1): fields that are immutable after construction keep their values
+	prevH    map[string]string
+	prevBase *Base
+	prevTop  string
 }
 
 // Item is one element of the VC sequence: an assumption or an obligation.
@@ -248,11 +252,23 @@ func (ex *Exec) defaultTerm(key string, b *Base) string {
 		if wf := wfFact(key, t, "top!0"); wf != "" {
 			ex.preAssume = append(ex.preAssume, wf)
 		}
+		if key == "X|isOpen" {
+			// typestate well-formedness: an object that is not allocated yet is not an open handle
+			ex.preAssume = append(ex.preAssume, "(forall ((r!w Int)) (! (=> (> r!w top!0) (not (select "+t+" r!w))) :pattern ((select "+t+" r!w))))")
+		}
 	case 1:
 		t = fmt.Sprintf("Hh%d!%s", b.id, sanitize(key))
 		ex.declare(t, ex.keySort[key])
 		if wf := wfFact(key, t, b.top); wf != "" {
 			ex.preAssume = append(ex.preAssume, wf)
+		}
+		if b.prevBase != nil && ex.w.immutableFieldKey(key) {
+			prev, ok := b.prevH[key]
+			if !ok {
+				prev = ex.defaultTerm(key, b.prevBase)
+			}
+			ex.used["immutable-after-construction fields keep their value across heap havoc (A-IMMFIELD: program-wide store/escape scan; reflect/unsafe writes not seen)"] = true
+			ex.preAssume = append(ex.preAssume, "(forall ((r!w Int)) (! (=> (and (<= 0 r!w) (<= r!w "+b.prevTop+")) (= (select "+t+" r!w) (select "+prev+" r!w))) :pattern ((select "+t+" r!w))))")
 		}
 	case 2:
 		t = ite(b.cond, ex.defaultTerm(key, b.a), ex.defaultTerm(key, b.b))
@@ -369,11 +385,13 @@ func (ex *Exec) havocAll(st *State, why string) {
 			}
 		}
 	}
+	prevH, prevBase, prevTop := st.H, st.Base, st.Top
 	st.H = keep
 	top := ex.freshOrTerm("top", sInt)
 	ex.assume(app("<=", st.Top, top))
 	st.Top = top
 	st.Base = ex.newHavocBase(top)
+	st.Base.prevH, st.Base.prevBase, st.Base.prevTop = prevH, prevBase, prevTop
 	for _, l := range ex.loopStack {
 		ex.loopAll[l] = true
 	}
